@@ -42,7 +42,7 @@ def gen_cases(tier, rng, families):
         cases.append("s%d %s %s" % (n, cfg or "100000:4096:256:%d" % rng.randrange(2), " ".join(steps)))
         n += 1
 
-    reps = 12 if tier == "quick" else 400
+    reps = 12 if tier == "quick" else 150
     for rep in range(reps):
         if "reader" in families:
             # reader parked between releasing the mutex and reading; rotation + flush + deletion
